@@ -13,7 +13,7 @@ Models (each in its own namespace, all with `Params`, `State`, `init`, `step`):
   `Interval`  observables/interval.rs:13-28 (+ operators/take.rs:36-51 downstream, + an unsubscribing thread)
   `Timer`     observables/timer.rs:13-22
   `Delay`     operators/delay.rs:30-38 driven by a scripted source thread
-  `Timeout`   operators/timeout.rs:41-97; every item arms a fresh `interval(d).take(1)` on a fresh scheduler thread
+  `Timeout`   operators/timeout.rs:41-105; every item arms a fresh `interval(d).take(1)` on a fresh scheduler thread
   `Debounce`  operators/debounce.rs:42-85 with `set_on_finalize(scheduler.abort)` (stream_controller.rs:132-145)
   `Sample`    operators/sample.rs:31-73
   `Rounds`    a driver that subscribes / unsubscribes `interval(d)` repeatedly (thread accumulation, C15)
@@ -252,6 +252,13 @@ def step (p : Params) (s : State) : Label → Option State
 /-- replay a recorded label list from the initial state -/
 def replay (p : Params) (ls : List Label) : Option State := runFrom (step p) (init p) ls
 
+/-- the first `k` records of `interval(d)`: tick `i` at `(i+1)·d` -/
+def expected (d k : Nat) : List Out := (List.range k).map fun i => ((i + 1) * d, Ev.next (.int i))
+
+/-- the whole log of `interval(d).take(c)`: `c` ticks, then `complete` at the tick on which `take` completes
+    (`take(0)` completes on the first tick without delivering it) -/
+def expectedTake (d c : Nat) : List Out := expected d c ++ [(max c 1 * d, Ev.complete)]
+
 end Interval
 
 /-! ## Timer: `timer(d)` subscribed at time 0 (observables/timer.rs:16-21), optional unsubscribe at `u`
@@ -331,17 +338,23 @@ def step (p : Params) (s : State) : Label → Option State
 /-- replay a recorded label list from the initial state -/
 def replay (p : Params) (ls : List Label) : Option State := runFrom (step p) (init p) ls
 
+/-- the whole log of `timer(d)` -/
+def expected (d : Nat) : List Out := [(d, Ev.next .unit), (d, Ev.complete)]
+
 end Timer
 
-/-! ## Delay: `source.delay(d)` (operators/delay.rs:30-38)
+/-! ## Delay: `source.delay(d)` (operators/delay.rs:30-38), with a slow consumer
 
 thread 0 = the SOURCE thread (the operator has no thread of its own):
 ```
-move |_, x| { thread::sleep(dur); sctl_next.sink_next(x); }   // call → mid1 (asleep, wake = now + d) → advance
+move |_, x| { thread::sleep(dur); sctl_next.sink_next(x); }   // call → mid1 (asleep, wake = now + d) → deliver →
+                                                              //   mid2 (consumer's callback, asleep until now + h) → advance
 move |_, e| { sctl_error.sink_error(e); }                     // call → advance   (not delayed)
 move |serial| sctl_complete.sink_complete(&serial)            // call → advance   (not delayed)
 ```
-so the source is blocked for `d` inside every `next`.  `srcSub` = the observer handed to the source still has its
+so the source is blocked for `d` inside every `next`, and then for the time `handling[i]` the downstream callback
+takes (it runs on the source thread inside `sink_next`; missing entries = 0, and with `h = 0` or an unsubscribed
+subscriber the step `mid1 → advance` is a single one).  `srcSub` = the observer handed to the source still has its
 callbacks (`Observer::next` = `call_if_available`); `sub` = the downstream subscriber is subscribed
 (stream_controller.rs:84-114).  thread 1 = optional unsubscriber at `u` (Observer::unsubscribe → on_unsubscribe →
 `finalize` clears the source observer). -/
@@ -351,27 +364,37 @@ structure Params where
   d : Nat
   script : Script
   unsubAt : Option Nat := none
+  /-- time the downstream callback takes for script entry `i` (only used for `next` entries) -/
+  handling : List Nat := []
 deriving DecidableEq, Repr, Inhabited
 
 structure State where
   now : Nat := 0
   src : Src := {}
+  /-- handling times of the remaining script entries (in lock-step with `src.rest`) -/
+  hrest : List Nat := []
   srcSub : Bool := true
   sub : Bool := true
   udone : Bool := false
   log : List Out := []
 deriving DecidableEq, Repr, Inhabited
 
-def init (p : Params) : State := { src := Src.start 0 p.script, udone := p.unsubAt.isNone }
+def init (p : Params) : State := { src := Src.start 0 p.script, hrest := p.handling, udone := p.unsubAt.isNone }
 
 def srcAllowsTick (s : State) (t' : Nat) : Bool :=
   match s.src.pc with
-  | .sleeping | .mid1 => decide (s.now < s.src.wake) && decide (t' ≤ s.src.wake)
+  | .sleeping | .mid1 | .mid2 => decide (s.now < s.src.wake) && decide (t' ≤ s.src.wake)
   | .done => true
   | _ => false
 
 def uAllowsTick (unsubAt : Option Nat) (udone : Bool) (now t' : Nat) : Bool :=
   udone || (match unsubAt with | none => true | some u => decide (now < u) && decide (t' ≤ u))
+
+/-- handling time of the entry at the head of the script -/
+def hnow (s : State) : Nat := s.hrest.headD 0
+
+/-- the call returned: go on with the tail of the script -/
+def next (s : State) : State := { s with src := s.src.advance s.now, hrest := s.hrest.tail }
 
 def step (p : Params) (s : State) : Label → Option State
   | .tick t' =>
@@ -386,19 +409,22 @@ def step (p : Params) (s : State) : Label → Option State
           match s.src.rest with
           | (_, .next _) :: _ =>
               if s.srcSub then some { s with src := { s.src with pc := .mid1, wake := s.now + p.d } }
-              else some { s with src := s.src.advance s.now }
+              else some (next s)
           | (_, ev) :: _ =>
-              some { s with src := s.src.advance s.now, srcSub := false, sub := s.sub && !s.srcSub,
-                            log := s.log ++ (if s.srcSub && s.sub then [(s.now, ev)] else []) }
+              some { next s with srcSub := false, sub := s.sub && !s.srcSub,
+                                 log := s.log ++ (if s.srcSub && s.sub then [(s.now, ev)] else []) }
           | [] => none
       | .mid1 =>
           match s.src.rest with
           | (_, ev) :: _ =>
               if s.src.wake ≤ s.now then
-                some { s with src := s.src.advance s.now, log := s.log ++ (if s.sub then [(s.now, ev)] else []) }
+                if s.sub = true ∧ hnow s ≠ 0 then
+                  some { s with src := { s.src with pc := .mid2, wake := s.now + hnow s }, log := s.log ++ [(s.now, ev)] }
+                else some { next s with log := s.log ++ (if s.sub then [(s.now, ev)] else []) }
               else none
           | [] => none
-      | _ => none
+      | .mid2 => if s.src.wake ≤ s.now then some (next s) else none
+      | .done => none
   | .run 1 =>
       match p.unsubAt with
       | some u => if s.udone = false ∧ u ≤ s.now then some { s with udone := true, sub := false, srcSub := false } else none
@@ -406,52 +432,78 @@ def step (p : Params) (s : State) : Label → Option State
   | .run _ => none
 
 /-- what the subscriber of `delay(d)` must see when the source starts waiting for the head of the script at `t`:
-    item handed on `d` after it was RECEIVED, and it is received only when the previous hand-over is done -/
-def expected (d : Nat) : Nat → Script → List Out
-  | _, [] => []
-  | t, (w, .next x) :: r => (w.wake t + d, .next x) :: expected d (w.wake t + d) r
-  | t, (w, ev) :: _ => [(w.wake t, ev)]
+    item handed on `d` after it was RECEIVED; it is received only when the previous hand-over AND its handling are done -/
+def expected (d : Nat) : Nat → Script → List Nat → List Out
+  | _, [], _ => []
+  | t, (w, .next x) :: r, hs => (w.wake t + d, .next x) :: expected d (w.wake t + d + hs.headD 0) r hs.tail
+  | t, (w, ev) :: _, _ => [(w.wake t, ev)]
 
 /-- replay a recorded label list from the initial state -/
 def replay (p : Params) (ls : List Label) : Option State := runFrom (step p) (init p) ls
 
 end Delay
 
-/-! ## Timeout: `source.timeout(d, new_thread_scheduler())` (operators/timeout.rs:41-97, tree after the repair
-"timeout cancels its armed timer when the subscription ends")
+/-- program counter of the thread that unsubscribes the downstream subscriber at time `u`:
+    `Observer::unsubscribe` clears the callbacks (`waiting → fin`), then runs `on_unsubscribe` = `finalize` (`fin → done`) -/
+inductive UPc where
+  | waiting | fin | done
+deriving DecidableEq, Repr, Inhabited
+
+def UPc.allowsTick (unsubAt : Option Nat) (now t' : Nat) : UPc → Bool
+  | .waiting => match unsubAt with | none => true | some u => decide (now < u) && decide (t' ≤ u)
+  | .fin => false
+  | .done => true
+
+/-! ## Timeout: `source.timeout(d, new_thread_scheduler())` (operators/timeout.rs:41-105, HEAD 11cd3c1: `on_finalize`
+cancels the armed timer; a new timer is armed only if still subscribed and cancelled again if the subscription ended
+meanwhile), with a SLOW CONSUMER: the downstream callback runs on the source thread inside `sink_next` and takes
+`handling[i]` time units for script entry `i` (missing entries = 0; `handling = []` is the instantaneous consumer).
 
 thread 0 = source thread, thread 1 = optional unsubscriber of the outer subscription, thread `2 + i` = the scheduler
 thread of the `i`-th armed timer (`timers[i]`), an `interval(d).take(1)` worker (see `IW`).
 ```
 sctl.set_on_finalize(move || {                                       // timeout.rs:49-54, run ONCE by `finalize`
-  let armed = timer.write().unwrap().take();                         //   (stream_controller.rs:132-145: on_finalize is
-  if let Some(armed) = armed { armed.unsubscribe(); } });            //    taken and set to None)  = `finalize` below
-move |_, x| {                                                        // source pc
-  { let mut timer = timer.write(); if let Some(t) = &*timer { t.unsubscribe(); } *timer = None; }   // call → mid1
-  sctl_next.sink_next(x);                                            // mid1 → mid2   (not subscribed: `finalize`)
-  if sctl_next.is_subscribed() {                                     // mid2, arming = false: → arming = true | advance
-    *timer.write() = Some(interval(dur, ..).take(1).subscribe(       // mid2, arming = true → advance: new thread, pc = top
-        move |_| sctl.sink_error(TimedOut), ..)); }
+  let armed = timer.write().unwrap().take();                         //   (stream_controller.rs:132-145: the subscriber is
+  if let Some(armed) = armed { armed.unsubscribe(); } });            //    unsubscribed first, then on_finalize is taken)
+move |_, x| {                                                        // source (pc, ph)
+  { let mut timer = timer.write(); if let Some(t) = &*timer { t.unsubscribe(); } *timer = None; }   // call → (mid1, deliver)
+  sctl_next.sink_next(x);                                            // (mid1, deliver): record, consumer starts
+                                                                     //   → (mid1, handling) asleep until now + h → (mid2, test)
+                                                                     //   (h = 0: → (mid2, test) at once; not subscribed: `finalize`)
+  if sctl_next.is_subscribed() {                                     // (mid2, test)  → (mid2, store) | advance
+    *timer.write() = Some(interval(dur, ..).take(1).subscribe(       // (mid2, store) → (mid2, recheck): new thread, pc = top
+        move |_| sctl.sink_error(TimedOut), ..));
+    if !sctl_next.is_subscribed() {                                  // (mid2, recheck) → advance
+      let armed = timer.write().unwrap().take(); if let Some(armed) = armed { armed.unsubscribe(); } } }
 },
 move |_, e| sctl_error.sink_error(e),                                // call → advance: deliver, then `finalize`
 move |serial| sctl_complete.sink_complete(&serial)                   // call → advance: deliver, then `finalize`
 ```
+The unsubscriber thread does `Observer::unsubscribe`: clear the callbacks (`waiting → fin`: `sub := false`), then
+`on_unsubscribe = finalize` (`fin → done`).
 A timer worker at `emit` calls `s.next(0)`: gated by its own observer (`w.sub`), then `take(1)` forwards to the lambda
 (`sink_error(TimedOut)` on the OUTER controller: delivered iff the outer subscriber is still subscribed, then
-`finalize`) and completes, which unsubscribes the worker's observer (`emitted … true`).
-The `is_subscribed` test and the store into the `timer` cell are two micro-steps: an unsubscribe by ANOTHER thread that
-falls between them (`raced`, ghost) finds the cell empty, and the timer stored afterwards is never cancelled. -/
+`finalize`) and completes, which unsubscribes the worker's observer (`emitted … true`). -/
 namespace Timeout
+
+/-- where the source thread is inside the item handler -/
+inductive Ph where
+  | deliver | handling | test | store | recheck
+deriving DecidableEq, Repr, Inhabited
 
 structure Params where
   d : Nat
   script : Script
   unsubAt : Option Nat := none
+  /-- time the downstream callback takes for script entry `i` (only used for `next` entries) -/
+  handling : List Nat := []
 deriving DecidableEq, Repr, Inhabited
 
 structure State where
   now : Nat := 0
   src : Src := {}
+  /-- handling times of the remaining script entries (in lock-step with `src.rest`) -/
+  hrest : List Nat := []
   srcSub : Bool := true
   sub : Bool := true
   /-- the `timer` cell: index of the armed timer -/
@@ -459,17 +511,15 @@ structure State where
   timers : List IW := []
   /-- `on_finalize` of the outer controller is still set -/
   onFin : Bool := true
-  /-- the source thread passed `if sctl_next.is_subscribed()` and is about to store a new timer -/
-  arming : Bool := false
-  udone : Bool := false
+  ph : Ph := .deliver
+  upc : UPc := .waiting
   log : List Out := []
   /-- ghost: instant the outer subscriber stopped being subscribed -/
   outerEndedAt : Option Nat := none
-  /-- ghost: the unsubscriber thread ran between the `is_subscribed` test and the store of the new timer -/
-  raced : Bool := false
 deriving DecidableEq, Repr, Inhabited
 
-def init (p : Params) : State := { src := Src.start 0 p.script, udone := p.unsubAt.isNone }
+def init (p : Params) : State :=
+  { src := Src.start 0 p.script, hrest := p.handling, upc := if p.unsubAt.isNone then .done else .waiting }
 
 /-- `unsubscribe()` on the timer in `slot`, if any -/
 def cancelIn (now : Nat) (slot : Option Nat) (ts : List IW) : List IW :=
@@ -490,9 +540,23 @@ def finSlot (s : State) : Option Nat := if s.onFin then none else s.slot
 
 def endOuter (s : State) : Option Nat := if s.sub then some s.now else s.outerEndedAt
 
+/-- handling time of the entry at the head of the script -/
+def hnow (s : State) : Nat := s.hrest.headD 0
+
+/-- the source thread blocks the clock unless it sleeps (before a call, or inside the consumer's callback) -/
+def srcAllowsTick (s : State) (t' : Nat) : Bool :=
+  match s.src.pc with
+  | .sleeping => decide (s.now < s.src.wake) && decide (t' ≤ s.src.wake)
+  | .mid1 => s.ph == .handling && decide (s.now < s.src.wake) && decide (t' ≤ s.src.wake)
+  | .done => true
+  | _ => false
+
+/-- the handler returned: go on with the tail of the script -/
+def next (s : State) : State := { s with src := s.src.advance s.now, hrest := s.hrest.tail, ph := .deliver }
+
 def step (p : Params) (s : State) : Label → Option State
   | .tick t' =>
-      if s.now < t' ∧ s.src.allowsTick s.now t' = true ∧ Delay.uAllowsTick p.unsubAt s.udone s.now t' = true ∧
+      if s.now < t' ∧ srcAllowsTick s t' = true ∧ s.upc.allowsTick p.unsubAt s.now t' = true ∧
          s.timers.all (IW.allowsTick s.now t') = true then
         some { s with now := t' } else none
   | .run 0 =>
@@ -503,39 +567,47 @@ def step (p : Params) (s : State) : Label → Option State
       | .call =>
           match s.src.rest with
           | (_, .next _) :: _ =>
-              if s.srcSub then some { s with src := { s.src with pc := .mid1 }, timers := cancelSlot s, slot := none }
-              else some { s with src := s.src.advance s.now }
+              if s.srcSub then
+                some { s with src := { s.src with pc := .mid1 }, ph := .deliver, timers := cancelSlot s, slot := none }
+              else some (next s)
           | (_, ev) :: _ =>
               if s.srcSub then
-                some { s with src := s.src.advance s.now, srcSub := false, sub := false,
-                              outerEndedAt := endOuter s,
-                              log := s.log ++ (if s.sub then [(s.now, ev)] else []),
-                              timers := finTimers s s.timers, slot := finSlot s, onFin := false }
-              else some { s with src := s.src.advance s.now }
+                some { next s with srcSub := false, sub := false, outerEndedAt := endOuter s,
+                                   log := s.log ++ (if s.sub then [(s.now, ev)] else []),
+                                   timers := finTimers s s.timers, slot := finSlot s, onFin := false }
+              else some (next s)
           | [] => none
       | .mid1 =>
-          match s.src.rest with
-          | (_, ev) :: _ =>
-              if s.sub then some { s with src := { s.src with pc := .mid2 }, log := s.log ++ [(s.now, ev)] }
-              else some { s with src := { s.src with pc := .mid2 }, srcSub := false,
-                                 timers := finTimers s s.timers, slot := finSlot s, onFin := false }
-          | [] => none
+          match s.ph with
+          | .handling =>
+              if s.src.wake ≤ s.now then some { s with src := { s.src with pc := .mid2 }, ph := .test } else none
+          | _ =>
+              match s.src.rest with
+              | (_, ev) :: _ =>
+                  if s.sub then
+                    some { s with log := s.log ++ [(s.now, ev)],
+                                  src := { s.src with pc := if hnow s = 0 then .mid2 else .mid1, wake := s.now + hnow s },
+                                  ph := if hnow s = 0 then .test else .handling }
+                  else some { s with src := { s.src with pc := .mid2 }, ph := .test, srcSub := false,
+                                     timers := finTimers s s.timers, slot := finSlot s, onFin := false }
+              | [] => none
       | .mid2 =>
-          if s.arming then
-            some { s with src := s.src.advance s.now, slot := some s.timers.length,
-                          timers := s.timers ++ [{ born := s.now }], arming := false }
-          else if s.sub then some { s with arming := true }
-          else some { s with src := s.src.advance s.now }
+          match s.ph with
+          | .store =>
+              some { s with slot := some s.timers.length, timers := s.timers ++ [{ born := s.now }], ph := .recheck }
+          | .recheck =>
+              if s.sub then some (next s)
+              else some { next s with timers := cancelSlot s, slot := none }
+          | _ => if s.sub then some { s with ph := .store } else some (next s)
       | .done => none
   | .run 1 =>
-      match p.unsubAt with
-      | some u =>
-          if s.udone = false ∧ u ≤ s.now then
-            some { s with udone := true, sub := false, srcSub := false, outerEndedAt := endOuter s,
-                          timers := finTimers s s.timers, slot := finSlot s, onFin := false,
-                          raced := s.raced || s.arming }
-          else none
-      | none => none
+      match s.upc with
+      | .waiting => match p.unsubAt with
+          | some u => if u ≤ s.now then some { s with upc := .fin, sub := false, outerEndedAt := endOuter s } else none
+          | none => none
+      | .fin => some { s with upc := .done, srcSub := false,
+                              timers := finTimers s s.timers, slot := finSlot s, onFin := false }
+      | .done => none
   | .run (i + 2) =>
       match s.timers[i]? with
       | some w =>
@@ -556,21 +628,23 @@ def step (p : Params) (s : State) : Label → Option State
                  | none => none
       | none => none
 
-/-- what the subscriber of `timeout(d)` must see; `t` = instant the source starts waiting for the head of the script,
-    `armed` = a timer was armed at `t` (i.e. an item was passed at `t`) -/
-def expected (d : Nat) : Nat → Bool → Script → List Out
-  | t, armed, [] => if armed then [(t + d, .error timedOut)] else []
-  | t, armed, (w, .next x) :: r =>
+/-- what the subscriber of `timeout(d)` must see.  `t` = instant the source starts waiting for the head of the script
+    (= instant the previous handler returned), `armed` = a timer was armed at `t`, `hs` = handling times of the remaining
+    entries.  An event arrives at `w.wake t`; it is replaced by `TimedOut` at `t + d` iff a timer is armed and
+    `t + d < w.wake t`; an item that passes keeps the source thread until `w.wake t + h`, where the next timer is armed. -/
+def expected (d : Nat) : Nat → Bool → Script → List Nat → List Out
+  | t, armed, [], _ => if armed then [(t + d, .error timedOut)] else []
+  | t, armed, (w, .next x) :: r, hs =>
       if armed ∧ t + d < w.wake t then [(t + d, .error timedOut)]
-      else (w.wake t, .next x) :: expected d (w.wake t) true r
-  | t, armed, (w, ev) :: _ =>
+      else (w.wake t, .next x) :: expected d (w.wake t + hs.headD 0) true r hs.tail
+  | t, armed, (w, ev) :: _, _ =>
       if armed ∧ t + d < w.wake t then [(t + d, .error timedOut)] else [(w.wake t, ev)]
 
-/-- "events never exactly simultaneous": no call of the source falls exactly `d` after the previous item -/
-def noTie (d : Nat) : Nat → Bool → Script → Prop
-  | _, _, [] => True
-  | t, armed, (w, .next _) :: r => (armed = true → t + d ≠ w.wake t) ∧ noTie d (w.wake t) true r
-  | t, armed, (w, _) :: _ => (armed = true → t + d ≠ w.wake t)
+/-- "events never exactly simultaneous": no call of the source falls exactly `d` after the previous handler returned -/
+def noTie (d : Nat) : Nat → Bool → Script → List Nat → Prop
+  | _, _, [], _ => True
+  | t, armed, (w, .next _) :: r, hs => (armed = true → t + d ≠ w.wake t) ∧ noTie d (w.wake t + hs.headD 0) true r hs.tail
+  | t, armed, (w, _) :: _, _ => (armed = true → t + d ≠ w.wake t)
 
 def liveTimers (s : State) : Nat := (s.timers.filter IW.live).length
 
@@ -588,17 +662,6 @@ def emits : Script → List Data
   | [] => []
   | (_, .next x) :: r => x :: emits r
   | _ :: _ => []
-
-/-- program counter of the thread that unsubscribes the downstream subscriber at time `u`:
-    `Observer::unsubscribe` clears the callbacks (`waiting → fin`), then runs `on_unsubscribe` = `finalize` (`fin → done`) -/
-inductive UPc where
-  | waiting | fin | done
-deriving DecidableEq, Repr, Inhabited
-
-def UPc.allowsTick (unsubAt : Option Nat) (now t' : Nat) : UPc → Bool
-  | .waiting => match unsubAt with | none => true | some u => decide (now < u) && decide (t' ≤ u)
-  | .fin => false
-  | .done => true
 
 /-! ## Debounce: `source.debounce(d, new_thread_scheduler())` (operators/debounce.rs:42-85)
 
@@ -875,5 +938,85 @@ def step (p : Params) (s : State) : Label → Option State
 def replay (p : Params) (ls : List Label) : Option State := runFrom (step p) (init p) ls
 
 end Rounds
+
+/-! ## Executable expectations for the driver
+
+`expectedLine` answers a one-line request with the expected subscriber log of the corresponding model
+(`Interval.expected`, `Interval.expectedTake`, `Timer.expected`, `Delay.expected`, `Timeout.expected`; proved to be what
+every run delivers in `Theorems/C16.lean`).
+
+Requests (tokens separated by blanks):
+  `interval <d> <k>`        first `k` records of `interval(d)`
+  `interval-take <d> <c>`   whole log of `interval(d).take(c)`
+  `timer <d>`               whole log of `timer(d)`
+  `delay <d> <entry>*`      log of `source.delay(d)`
+  `timeout <d> <entry>*`    log of `source.timeout(d)` (no exact ties assumed)
+An `<entry>` of the source script is one of
+  `<wait>:<value>:<handling>`  `next(value)` (a decimal integer, may be negative); the downstream callback takes
+                               `handling` time units on the source thread (`<wait>:<value>` = handling 0)
+  `c:<wait>`                   `complete`
+  `e:<wait>`                   `error` (some error other than TimedOut)
+and `<wait>` is `<g>` = sleep `g` after the previous call returned, or `@<t>` = sleep until the absolute instant `t`.
+A script without terminal entry never terminates (for `timeout` the last timer then fires).
+Answer: the records separated by blanks, `n<value>@<time>`, `c@<time>`, `e@<time>`, TimedOut as `eT@<time>`
+(`timer` delivers `next(())`, printed `nu@<time>`); a malformed request gives a string starting with `error:`.
+Example: `timeout 20 5:1:0 15:2:10 c:1` ↦ `n1@5 n2@20 c@31`. -/
+
+def valStr : Data → String
+  | .int i => toString i
+  | .unit => "u"
+  | .bool true => "T"
+  | .bool false => "F"
+  | _ => "?"
+
+def outStr (o : Out) : String :=
+  match o.2 with
+  | .next x => "n" ++ valStr x ++ "@" ++ toString o.1
+  | .complete => "c@" ++ toString o.1
+  | .error e => (if e = timedOut then "eT@" else "e@") ++ toString o.1
+
+def showOuts (l : List Out) : String := " ".intercalate (l.map outStr)
+
+def parseWait (s : String) : Option Wait :=
+  if s.startsWith "@" then (s.drop 1).toString.toNat?.map Wait.abs else s.toNat?.map Wait.rel
+
+/-- one script entry together with its handling time -/
+def parseEntry (tok : String) : Option ((Wait × Ev) × Nat) :=
+  match tok.splitOn ":" with
+  | ["c", g] => (parseWait g).map fun w => ((w, Ev.complete), 0)
+  | ["e", g] => (parseWait g).map fun w => ((w, Ev.error 1), 0)
+  | [g, v, h] =>
+      match parseWait g, v.toInt?, h.toNat? with
+      | some w, some i, some h => some ((w, Ev.next (.int i)), h)
+      | _, _, _ => none
+  | [g, v] =>
+      match parseWait g, v.toInt? with
+      | some w, some i => some ((w, Ev.next (.int i)), 0)
+      | _, _ => none
+  | _ => none
+
+def expectedLine (line : String) : String :=
+  match (line.trimAscii.toString.splitOn " ").filter (· ≠ "") with
+  | ["interval", d, k] =>
+      match d.toNat?, k.toNat? with
+      | some d, some k => showOuts (Interval.expected d k)
+      | _, _ => "error: interval <d> <k>"
+  | ["interval-take", d, c] =>
+      match d.toNat?, c.toNat? with
+      | some d, some c => showOuts (Interval.expectedTake d c)
+      | _, _ => "error: interval-take <d> <c>"
+  | ["timer", d] =>
+      match d.toNat? with
+      | some d => showOuts (Timer.expected d)
+      | none => "error: timer <d>"
+  | "delay" :: d :: items =>
+      match d.toNat?, items.mapM parseEntry with
+      | some d, some es => showOuts (Delay.expected d 0 (es.map (·.1)) (es.map (·.2)))
+      | _, _ => "error: delay <d> <entry>*"
+  | "timeout" :: d :: items =>
+      match d.toNat?, items.mapM parseEntry with
+      | some d, some es => showOuts (Timeout.expected d 0 false (es.map (·.1)) (es.map (·.2)))
+      | _, _ => "error: timeout <d> <entry>*"
+  | _ => "error: unknown request"
 
 end Rx.Timed
